@@ -273,6 +273,12 @@ func ErrorsOnlyFrom(c *Check, id, rule string, fn *ssa.Function, srcs []ErrSourc
 // of a private in-package helper is admissible if the helper, judged by the same
 // classifier, fails only for admissible reasons (two levels).
 func ErrorsOnlyFromKinds(c *Check, id, rule string, fn *ssa.Function, classify func(ssa.CallInstruction) (int, bool), edges []Edge, why string) {
+	ErrorsOnlyFromKindsAlso(c, id, rule, fn, classify, edges, nil, why)
+}
+
+// ErrorsOnlyFromKindsAlso: also(v) admits further origin values (e.g. what a
+// deferred closure stores into the named result).
+func ErrorsOnlyFromKindsAlso(c *Check, id, rule string, fn *ssa.Function, classify func(ssa.CallInstruction) (int, bool), edges []Edge, also func(ssa.Value) bool, why string) {
 	var admissible func(f *ssa.Function, v ssa.Value, depth int) bool
 	helperOK := func(h *ssa.Function, depth int) bool {
 		if depth > 2 || h == nil || len(h.Blocks) == 0 {
@@ -282,7 +288,7 @@ func ErrorsOnlyFromKinds(c *Check, id, rule string, fn *ssa.Function, classify f
 			if len(r.Results) == 0 {
 				return false
 			}
-			for _, v := range Origins(r.Results[len(r.Results)-1]) {
+			for _, v := range RetOrigins(r, len(r.Results)-1) {
 				if !IsNilConst(v) && !admissible(h, v, depth+1) {
 					return false
 				}
@@ -330,6 +336,13 @@ func ErrorsOnlyFromKinds(c *Check, id, rule string, fn *ssa.Function, classify f
 				continue
 			}
 			if len(edges) > 0 && (GuardedBy(fn, r, edges) || nilOnlyOnEdges(r, v, edges)) {
+				continue
+			}
+			// a value that is only made behind one of the listed failure tests
+			if in, isIn := v.(ssa.Instruction); isIn && len(edges) > 0 && in.Parent() == fn && GuardedBy(fn, in, edges) {
+				continue
+			}
+			if also != nil && also(v) {
 				continue
 			}
 			ok = false
